@@ -49,7 +49,7 @@ def reOf (E : ReEnv) (toks : List Jsr.JTok) : Regexp := fun s =>
 /-- `newPathExpression(template)`; `none` = the template does not compile -/
 def genPE (E : ReEnv) (tmpl : Str) : Option ImpGen.GoPathExpression :=
   (Jsr.compile tmpl).map (fun ex =>
-    { LiteralCount := ((ex.literalCount : Nat) : Int), VarCount := ((ex.varCount : Nat) : Int),
+    { LiteralCount := ((ex.literalCount : Nat) : Int), VarNames := ex.varNames, VarCount := ((ex.varCount : Nat) : Int),
       Matcher := reOf E ex.toks, tokens := tokenize tmpl })
 
 end TieImp
